@@ -4,9 +4,11 @@ package classifier
 
 import (
 	"fmt"
+	"html"
 	"math/rand"
 	"strings"
 	"testing"
+	"unicode"
 )
 
 // C11 — Normalize output lines up with Match positions and matches the same.
@@ -115,11 +117,40 @@ func vC11Attribute(in, norm []byte) (string, string) {
 	// KF-C11-1: every difference is a 1:1 replacement where the cleaned token of the
 	// original contains "https" (born from cleaning a URL such as http://source...)
 	// and re-tokenising rewrote it to "http".
+	// (tightened after a seeded change hid behind the looser version: the "https" in
+	// the cleaned token must be BORN by cleaning. The harness recomputes, from the
+	// raw fields of the token's line, what the documented pipeline yields - rewrite
+	// every literal "https" to "http", then keep the letters - and the original
+	// token must equal that; a literal "https" that survived the first
+	// tokenisation is not this finding.)
+	rawLines := strings.Split(string(in), "\n")
+	specToken := func(line int, tok string) bool {
+		if line < 1 || line > len(rawLines) {
+			return false
+		}
+		for _, f := range strings.Fields(strings.ToLower(rawLines[line-1])) {
+			f = strings.TrimLeftFunc(f, func(c rune) bool { return !(unicode.IsLetter(c) || unicode.IsDigit(c) || c == '&' || c == '(') })
+			f = strings.ReplaceAll(html.UnescapeString(f), "https", "http")
+			var sb strings.Builder
+			for _, c := range f {
+				if unicode.IsLetter(c) {
+					sb.WriteRune(c)
+				}
+			}
+			if sb.String() == tok {
+				return true
+			}
+		}
+		return false
+	}
 	if len(da) == len(db) {
 		all := true
 		for k := range da {
 			o, n := wa[da[k]], wb[db[k]]
 			if !(strings.Contains(o, "https") && strings.ReplaceAll(o, "https", "http") == n) {
+				all = false
+			}
+			if !specToken(la[da[k]], o) {
 				all = false
 			}
 		}
@@ -221,6 +252,15 @@ func TestVerifC11(t *testing.T) {
 				raw := string(d.raw)
 				if len(raw) > 8000 {
 					raw = raw[:8000]
+				}
+				if r.Intn(3) == 0 {
+					// URLs glued to an opening parenthesis / ampersand / quote
+					url := []string{"(https://www.apache.org/licenses/LICENSE-2.0)", "(https://example.org/license)", "&https://example.com/x", "\"https://opensource.org/licenses/MIT\"", "<https://www.gnu.org/licenses/>", "(http://www.apache.org/)", "(see https://sourceforge.net/p/x)"}[r.Intn(7)]
+					w := strings.Fields(raw)
+					if len(w) > 10 {
+						k := r.Intn(len(w) - 1)
+						raw = strings.Replace(raw, w[k]+" "+w[k+1], w[k]+" "+url+" "+w[k+1], 1)
+					}
 				}
 				lead := []string{"\n", "\n\n", "  \n", "// \n", " * \n", "Copyright 2020 Example Corp\n", "// Copyright (c) 2019 J. Random Hacker\n", "2020-01-02\n", "A. Definitions\n", "IV. Terms\n", "1. \n"}[r.Intn(11)]
 				lines := strings.Split(raw, "\n")
